@@ -106,6 +106,7 @@ class Session(BusSession):
                     and not any(sl[0] == x and sl[1] == y and sl[2] == SERIALS[1] for sl in self.slots_model):
                 for first in (0, 1):
                     ops.append(['race', first, x, y, SERIALS[1]])
+        ops.append(['reload'])       # open reply slots survive a re-read of the (unchanged) configuration
         if self.timeout is not None:
             ops.append(['advance', 3000])
             ops.append(['advance', 6000])
@@ -274,6 +275,11 @@ class Session(BusSession):
             else:
                 obs[x] = [o for o in obs[x] if o is not mine[0]]
                 self.expect(obs, want, out, repr(op))
+            if not out:
+                self.check_dump(out, repr(op))
+            return out
+        elif kind == 'reload':
+            self.reload_same(out, repr(op))
             if not out:
                 self.check_dump(out, repr(op))
             return out
